@@ -95,7 +95,8 @@ class SysRun:
       _, _, kind, sig, period, times, deferred, slot = op
       self.nsrc += 1
       src = self.nsrc
-      self.sched.next_timer_src = src
+      import threading as _th
+      self.sched.__dict__.setdefault("timer_src_by_thread", {})[_th.get_ident()] = src
       self.emit("call", "tpost", name, src, kind, sig, period, times, 1 if deferred else 0, who)
       try:
         r = (ao.post_fifo if kind == "fifo" else ao.post_lifo)(Event(signal=sig), period=period, times=times, deferred=deferred)
@@ -157,9 +158,12 @@ class SysRun:
             k = sum(1 for vt in sched.threads if vt.name.startswith(base))
             return base if k == 0 else "%s_%d" % (base, k + 1)
           if nm == "post_event_thread_runner":
-            return "tm%d" % getattr(sched, "next_timer_src", 0)
+            import threading as _th
+            return "tm%d" % getattr(sched, "timer_src_by_thread", {}).get(_th.get_ident(), 0)
           return None
         sched.name_for_thread = name_for_thread
+        if cfg.get("trace_funcs"):
+          sched.trace_funcs = {tuple(x) for x in cfg["trace_funcs"]}
         self.fabric = ma.ActiveFabric()
         self.fabric.fifo_fabric_queue.vname = "pq_fifo"
         self.fabric.lifo_fabric_queue.vname = "pq_lifo"
